@@ -500,15 +500,22 @@ func runLabels(c jcase) outcome {
 			if st == 200 {
 				var r struct{ SplitSupervoxel, RemainSupervoxel uint64 }
 				json.Unmarshal(body, &r)
-				for k, got := range []uint64{r.SplitSupervoxel, r.RemainSupervoxel} {
+				// SplitSupervoxel (mutate.go): the labels the client chose are registered first (split, then
+				// remain), the missing ones are drawn afterwards (split, then remain) -- a drawn label is
+				// above both chosen ones
+				got := []uint64{r.SplitSupervoxel, r.RemainSupervoxel}
+				for k := range got {
 					if e.Ls[1+k] != 0 {
-						if got != e.Ls[1+k] {
+						if got[k] != e.Ls[1+k] {
 							fatal("split-supervoxel %v answered %s", e.Ls, body)
 						}
-						lev = append(lev, fmt.Sprintf("LSetMax %d %d", curV, got))
-					} else {
+						lev = append(lev, fmt.Sprintf("LSetMax %d %d", curV, got[k]))
+					}
+				}
+				for k := range got {
+					if e.Ls[1+k] == 0 {
 						lev = append(lev, fmt.Sprintf("LAlloc %d 1", curV))
-						obs = append(obs, fmt.Sprintf("Some (%d, %d)", got, got))
+						obs = append(obs, fmt.Sprintf("Some (%d, %d)", got[k], got[k]))
 					}
 				}
 				delete(blkOf, e.Ls[0])
